@@ -564,14 +564,6 @@ def hexDigit? (c : Nat) : Option Nat :=
 def octDigit? (c : Nat) : Option Nat :=
   if 48 ≤ c ∧ c ≤ 55 then some (c - 48) else none
 
-/-- read exactly `n` hex digits -/
-def takeHex : Nat → Nat → Bytes → Option (Nat × Bytes)
-  | 0, acc, r => some (acc, r)
-  | n + 1, acc, c :: r => match hexDigit? c with
-    | some d => takeHex n (acc * 16 + d) r
-    | none => none
-  | _ + 1, _, [] => none
-
 def utf8 (cp : Nat) : Bytes :=
   if cp < 128 then [cp]
   else if cp < 2048 then [192 + cp / 64, 128 + cp % 64]
@@ -580,65 +572,70 @@ def utf8 (cp : Nat) : Bytes :=
 
 def validRune (cp : Nat) : Bool := cp < 1114112 && !(55296 ≤ cp && cp < 57344)
 
-/-- the escape sequence after a backslash: decoded bytes and the rest -/
-def scanEsc : Bytes → Option (Bytes × Bytes)
-  | 97 :: r => some ([7], r)      -- \a
-  | 98 :: r => some ([8], r)      -- \b
-  | 102 :: r => some ([12], r)    -- \f
-  | 110 :: r => some ([10], r)    -- \n
-  | 114 :: r => some ([13], r)    -- \r
-  | 116 :: r => some ([9], r)     -- \t
-  | 118 :: r => some ([11], r)    -- \v
-  | 92 :: r => some ([92], r)     -- \\
-  | 34 :: r => some ([34], r)     -- \"
-  | 120 :: r => match takeHex 2 0 r with      -- \xhh
-    | some (v, r') => some ([v], r')
-    | none => none
-  | 117 :: r => match takeHex 4 0 r with      -- \uhhhh
-    | some (v, r') => if validRune v then some (utf8 v, r') else none
-    | none => none
-  | 85 :: r => match takeHex 8 0 r with       -- \Uhhhhhhhh
-    | some (v, r') => if validRune v then some (utf8 v, r') else none
-    | none => none
-  | a :: b :: c :: r =>                       -- \ooo
-      match octDigit? a, octDigit? b, octDigit? c with
-      | some x, some y, some z => if x * 64 + y * 8 + z < 256 then some ([x * 64 + y * 8 + z], r) else none
-      | _, _, _ => none
-  | _ => none
+/-- state of the scanner inside an interpreted string literal -/
+inductive LexSt
+  | norm                                           -- between characters
+  | esc                                            -- after a backslash
+  | num (base rem acc : Nat) (rune : Bool)         -- inside \ooo \xhh \uhhhh \Uhhhhhhhh: `rem` digits to go
+  deriving DecidableEq, Repr, Inhabited
 
-/-- body of an interpreted string literal up to the closing quote, which must end the text -/
-def unqBody : Nat → Bytes → Option Bytes
-  | 0, _ => none
-  | _ + 1, [] => none                         -- unterminated
-  | fuel + 1, c :: r =>
-      if c = 34 then (if r = [] then some [] else none)
-      else if c = 10 then none                -- newline in string
-      else if c = 92 then
-        match scanEsc r with
-        | some (d, r') => (unqBody fuel r').map (d ++ ·)
+/-- one character: next state and the bytes the literal's value gains; `none` = not a valid literal -/
+def lexStep : LexSt → Nat → Option (LexSt × Bytes)
+  | .norm, c => if c = 92 then some (.esc, []) else some (.norm, [c])
+  | .esc, c =>
+      if c = 97 then some (.norm, [7])          -- \a
+      else if c = 98 then some (.norm, [8])     -- \b
+      else if c = 102 then some (.norm, [12])   -- \f
+      else if c = 110 then some (.norm, [10])   -- \n
+      else if c = 114 then some (.norm, [13])   -- \r
+      else if c = 116 then some (.norm, [9])    -- \t
+      else if c = 118 then some (.norm, [11])   -- \v
+      else if c = 92 then some (.norm, [92])    -- \\
+      else if c = 34 then some (.norm, [34])    -- \"
+      else if c = 120 then some (.num 16 2 0 false, [])   -- \x
+      else if c = 117 then some (.num 16 4 0 true, [])    -- \u
+      else if c = 85 then some (.num 16 8 0 true, [])     -- \U
+      else match octDigit? c with
+        | some d => some (.num 8 2 d false, [])
+        | none => none                          -- unknown escape (\' included: it is for rune literals only)
+  | .num base rem acc rune, c =>
+      match (if base = 16 then hexDigit? c else octDigit? c) with
+      | none => none
+      | some d =>
+          let acc' := acc * base + d
+          if rem ≤ 1 then
+            (if rune then (if validRune acc' then some (.norm, utf8 acc') else none)
+             else if acc' < 256 then some (.norm, [acc']) else none)
+          else some (.num base (rem - 1) acc' rune, [])
+
+/-- the text after the opening quote: a quote between characters closes the literal and must end the text,
+    a raw newline is not allowed -/
+def unqFrom : LexSt → Bytes → Option Bytes
+  | _, [] => none                                   -- unterminated
+  | st, c :: r =>
+      if st = .norm ∧ c = 34 then (if r = [] then some [] else none)
+      else if st = .norm ∧ c = 10 then none
+      else match lexStep st c with
+        | some (st', out) => (unqFrom st' r).map (out ++ ·)
         | none => none
-      else (unqBody fuel r).map (c :: ·)
 
 /-- value of the Go source text `raw` read as an interpreted string literal; `none` = does not compile -/
 def goUnquote (raw : Bytes) : Option Bytes :=
   match raw with
-  | 34 :: r => unqBody (r.length + 1) r
+  | 34 :: r => unqFrom .norm r
   | _ => none
 
-/-- the IDL literal interpreted by the target language: as `unqBody`, but the text ends at the end of the
-    literal and a quote stands for itself (docs/string-literals-in-the-IDL.md) -/
-def interpBody : Nat → Bytes → Option Bytes
-  | 0, _ => none
-  | _ + 1, [] => some []
-  | fuel + 1, c :: r =>
-      if c = 10 then none
-      else if c = 92 then
-        match scanEsc r with
-        | some (d, r') => (interpBody fuel r').map (d ++ ·)
-        | none => none
-      else (interpBody fuel r).map (c :: ·)
+/-- the IDL literal (delimiter already unescaped by the parser) interpreted by the target language: escape
+    sequences as in Go, every other character -- a quote, a newline -- stands for itself
+    (docs/string-literals-in-the-IDL.md) -/
+def interpFrom : LexSt → Bytes → Option Bytes
+  | st, [] => if st = .norm then some [] else none
+  | st, c :: r =>
+      match lexStep st c with
+      | some (st', out) => (interpFrom st' r).map (out ++ ·)
+      | none => none
 
-def interp (s : Bytes) : Option Bytes := interpBody (s.length + 1) s
+def interp (s : Bytes) : Option Bytes := interpFrom .norm s
 
 /-- Go zero value of the field generated for `f` -/
 def zeroField (f : AField) : GoVal :=
